@@ -115,4 +115,18 @@ CHECKS = {
         "level_note": "Trusts the independent resolver and the generator's record of which references each file contains. Builds that fail for unrelated reasons (import of a file with text, format rules) still have their call history checked. In-root names beginning with `..` are not generated.",
         "assumptions": ["the file system presents the same content for a name throughout one build"],
     },
+    "C04": {
+        "id": "C04", "pkg": "c04", "test": "TestC04", "level": "exploration",
+        "runs": {"quick": 24000, "thorough": 3000000},
+        "chunk": 4000, "run_timeout_s": 20,
+        "rule": "each run picks a source set (60% a program or template of the repository's comparison corpus with its .dir companions, else a generated template set, file tree, skeleton program or concurrent program), lets the simulated disk damage one stored file (truncation at a drawn offset, 1-3 byte runs replaced from a delimiter/keyword dictionary, insertion, stale/new splice with another corpus file, duplicated block, short truncation plus delimiter such as `{##`, deleted block; 10% undamaged), optionally injects one I/O fault, draws the token channel capacity (default 20, 0, 1, 3), the FS kind and NoParseShortShowStmt, and builds inside a synctest bubble. "
+                "evaluations = builds; distinct_nontrivial = distinct (source, damaged file, damage) triples",
+        "components": {"real": ["scriggo.Build / BuildTemplate incl. lexer goroutine, parser, template expansion, type checker, emitter", "Disassemble, UsedVars of successful builds", "io/fs.ReadFile"],
+                       "stub": ["storage: in-memory recording fs.FS with damage and I/O faults", "lexer/parser token channel capacity (guarded hook SetSimTokenChanCap)", "goroutine accounting by testing/synctest (quiescence, blocked-goroutine detection)"]},
+        "engine": "buildsim", "design_ref": "DESIGN.md section 5, C04",
+        "technique": "deterministic simulation with fault injection: simulated disk damaging stored sources (torn writes, flipped bytes, splices, I/O errors), builds inside a synctest bubble observing the parser/lexer goroutine pair, token-channel capacity knob",
+        "level_text": "Seeded search over (source, stored-byte damage, I/O fault, channel capacity). Oracle per build: the call returns (a parser/lexer deadlock is seen as a bubble in which everything is blocked), no panic reaches the caller, the process survives (a panic on the lexer goroutine kills the worker: attributed to the run, confirmed and minimised through child processes), no goroutine of the build is alive after it returns, Disassemble/UsedVars of a successful build do not panic; a wall-clock watchdog per worker backs up CPU-bound hangs.",
+        "level_note": "The byte-level space is sampled, not enumerated; the statement's `arbitrary bytes` is approached through damage of realistic sources. No particular error is demanded (C03/C21).",
+        "assumptions": ["sources up to 64 KiB"],
+    },
 }
